@@ -34,6 +34,13 @@ PROP = {
              "answers with a synthetic message / junk / another library cell; oracle: the resolver is asked exactly for the root's "
              "hash and the reported hash is that of the resolved cell. The receiver's destination after Hash(true) is compared as well "
              "(anycast of addr_std cleared, also seen through copies in histories). "
+             "Concurrency (c16.conc, in the guarded child so that a fatal runtime error or a hang is an outcome): 8 goroutines started "
+             "together call Hash(false)/Hash(true) on ONE decoded message (ext-in with inline / referenced bodies with 0..4 references, "
+             "anycast, init forms; also internal messages), or Hash()/SourceBoc() on ONE decoded real transaction, for several rounds; "
+             "every answer must equal the sequential answer, the sequential answers afterwards must be unchanged, and they equal the "
+             "model's. Size-field boundaries of the serialiser: real transactions whose in_msg body is extended by a chain so that the "
+             "transaction has exactly 255 / 256 / 257 distinct cells (through the model, both decoder modes) and 65535 / 65536 / 65537 "
+             "cells (thorough tier, implementation oracles only). "
              "Each case is decoded twice by the real code "
              "(tlb.Unmarshal and tlb.NewDecoder() with a pre-warmed hasher cache); compared with the extracted model (Gallina SHA-256): "
              "ok/err, kind, Hash(false), Hash(true), init form, body placement/bits/reference count, re-encoded source and destination, "
@@ -62,13 +69,17 @@ PROP = {
                     "the hasher shown never to return the model's fuel error); under a collision-free 32-byte hash two ordinary trees with "
                     "the same level-0 hash are equal, hence equal Hash(true) forces equal bodies as trees; Hash(_) calls never change "
                     "Hash(false)/Hash(true), the only receiver change is the cleared addr_std anycast; with a library resolver a library "
-                    "root reports the hash of the resolved cell."),
+                    "root reports the hash of the resolved cell. Round 3b: any sequence - hence any interleaving at call granularity - of "
+                    "Hash(false)/Hash(true) calls answers what a single call on the fresh message answers (C16_hash_calls_any_interleaving); "
+                    "the seeded designs 'Hash(true) reads the body through the message's own cell' and 'cell-count field sized from the "
+                    "largest index' are refuted in Proofs/MsgHashHistory.v."),
     'assumptions': ["SHA-256 is a parameter H of every theorem; the converse direction assumes H injective (stated in the theorem)",
                     "dictionary and TransactionDescr decoding are transcribed in Model/MsgOracle.v (acceptance only; the label walk is C05's load_label) and run by the extracted model; the theorems hold for every acceptance oracle and are instantiated for the transcription; the link of the dictionary walk to C05's abstract-map theorems is not restated here",
                     "C16_source_boc_is_serialiser_output assumes C01's hypotheses: array as returned by the parser (dag_wf, node_ok), fewer than 2^24 cells, and collision_free (equal hashes => equal trees among the reachable cells, the SHA-256 idealisation); tree-level injectivity of Hash(true) is for ordinary (non-exotic, level 0) reference trees only - with pruned branches it is false by design",
                     "no library resolver is configured in tongo_decode_* (a library cell in decoder position is an error); with a resolver only the root position is transcribed (C16_library_root_resolved), nested library cells are resolved by the code the same way but not modelled",
                     "bit strings / cells are the ideal objects of C06; SourceBoc's byte string is tied to the C01 layout by the per-output parse-back check and byte-exact comparison with the serialiser model, not by a theorem about the reordering heuristic",
                     "as the code stands Hash(true) keeps the anycast of an addr_var destination and returns 32 zero bytes when the canonical cell exceeds the depth limit (both modelled and stated as theorems, not alarmed on); Hash(true) clears the receiver's addr_std anycast: modelled (after_hash), it never changes Hash(false) or Hash(true), so it is not a C16 violation; re-marshalling such a message afterwards gives another cell (outside C16)",
+                    "data races inside a call are a matter of the Go runtime and not expressible in the model: the interleaving theorem is at call granularity and the concurrency oracle checks the observable consequence on the implementation; concurrent SourceBoc is exercised only on transactions decoded without the Decoder hasher (its cache is an unsynchronised map)",
                     "byte slices are values in the model: that SourceBoc returns independent copies (no aliasing between calls, copies of the variable and the caller's buffer) is established by the harness oracle on the implementation only"],
 }
 
